@@ -502,6 +502,81 @@ def p_define(wd, _):
     return []
 
 
+def p_macro_splices(wd, backend):
+    """the classic spellings of the splices: YY_DECL, YY_USER_ACTION and YY_USER_INIT defined as macros in the definitions section"""
+    re_opt = "reentrant" if backend == 'r' else ""
+    arg = "yyscan_t yyscanner" if backend == 'r' else "void"
+    call = "mylex(s)" if backend == 'r' else "mylex()"
+    text = spec(re_opt, "%%{\nint g_pre, g_init;\n#define YY_DECL int mylex(%s)\n#define YY_USER_ACTION g_pre++;\n#define YY_USER_INIT g_init++;\n%%}" % arg,
+                "#include <stdio.h>\nint main(void) { int a, b, c; " + ("yyscan_t s; yylex_init(&s); yy_scan_string(\"aab\", s);" if backend == 'r' else "yy_scan_string(\"aab\");") +
+                " a = %s; b = %s; c = %s; printf(\"%%d %%d %%d pre=%%d init=%%d\\n\", a, b, c, g_pre, g_init); return 0; }" % (call, call, call))
+    rc, err = flex(wd, text, [])
+    if rc:
+        return ["flex fails: " + err[:200]]
+    rc, e = cc(wd, ["p.c"])
+    if rc:
+        return ["a scanner defining YY_DECL / YY_USER_ACTION / YY_USER_INIT (%s) does not compile: %s" % (backend, (e.strip().splitlines() or ["?"])[0][:200])]
+    rc, o, e2 = run([os.path.join(wd, "p.exe")], cwd=wd, timeout=20)
+    want = b"1 2 0 pre=2 init=1"
+    return [] if o.strip() == want else ["YY_DECL / YY_USER_ACTION / YY_USER_INIT macros (%s): expected '%s', scanner printed '%s'" % (backend, want.decode(), o.strip().decode())]
+
+
+def p_init_extra(wd, _):
+    """yylex_init_extra: the user value is the scanner's yyextra from the start - yyalloc already sees it while the scanner is created"""
+    text = spec('reentrant noyyalloc extra-type="struct ctx *"',
+                "%top{\n#include <stdio.h>\n#include <stdlib.h>\nstruct ctx { int v; int seen; };\n}",
+                "void *yyalloc(yy_size_t n, yyscan_t s) { struct ctx *c = yyget_extra(s); if (c && c->v == 77) c->seen++; return malloc(n); }\n"
+                "int main(void) { struct ctx c = { 77, 0 }; yyscan_t s; if (yylex_init_extra(&c, &s)) return 3;\n"
+                " printf(\"%d %d\\n\", yyget_extra(s) == &c, c.seen > 0); yy_scan_string(\"ab\", s); while (yylex(s)) ; yylex_destroy(s); return 0; }")
+    rc, err = flex(wd, text, [])
+    if rc:
+        return ["flex fails: " + err[:200]]
+    rc, e = cc(wd, ["p.c"])
+    if rc:
+        return ["the yylex_init_extra scanner does not compile: " + (e.strip().splitlines() or ["?"])[0][:200]]
+    rc, o, e2 = run([os.path.join(wd, "p.exe")], cwd=wd, timeout=20)
+    return [] if o.strip() == b"1 1" else ["yylex_init_extra: yyget_extra() == user value and yyalloc saw it: expected '1 1', got '%s' (rc %s)" % (o.strip().decode(), rc)]
+
+
+def p_output_stream(wd, backend):
+    """unmatched text is copied to yyout (C: after yyout / yyset_out is pointed elsewhere; C++: the ostream given to the constructor,
+    and the one given to switch_streams) - nothing else, nothing lost"""
+    base = "%option noyywrap nounput noinput"
+    if backend == 'cxx':
+        text = (base + " c++\n%{\n#include <iostream>\n#include <sstream>\n%}\n%%\na+   { return 1; }\n%%\n"
+                "int main() { std::istringstream in(\"xaay\\nz\"), in2(\"qaar\"); std::ostringstream out, out2; yyFlexLexer l(&in, &out);\n"
+                " while (l.yylex()) ; l.switch_streams(&in2, &out2); while (l.yylex()) ;\n"
+                " std::cout << out.str() << \"|\" << out2.str() << \"|\"; return 0; }\n")
+        with open(os.path.join(wd, "p.l"), "w") as f:
+            f.write(text)
+        rc, out, err = run([_FLEX, "-o", "p.cc", "p.l"], cwd=wd, timeout=60)
+        if rc:
+            return ["flex fails: " + err.decode(errors="replace")[:200]]
+        rc, o, e = run(["g++", "-w", "-I" + os.path.dirname(_FLEX), "-o", "p.exe", "p.cc"], cwd=wd, timeout=120)
+        if rc:
+            return ["the C++ scanner does not compile: " + (e.decode(errors="replace").strip().splitlines() or ["?"])[0][:200]]
+        rc, o, e2 = run([os.path.join(wd, "p.exe")], cwd=wd, timeout=20)
+        want = b"xy\nz|qr|"
+    else:
+        re_ = backend == 'r'
+        setout = "yyset_out(f, s);" if re_ else ("yyout = f;" if backend == 'nr' else "yyset_out(f);")
+        text = spec("reentrant" if re_ else "", "%{\n#include <stdio.h>\n%}",
+                    "int main(void) { FILE *f = tmpfile(); int c; " + ("yyscan_t s; yylex_init(&s); " if re_ else "") + setout +
+                    (" yy_scan_string(\"xaay\\nzb\", s); while (yylex(s)) ; yylex_destroy(s);" if re_ else " yy_scan_string(\"xaay\\nzb\"); while (yylex()) ;") +
+                    " fflush(f); rewind(f); while ((c = getc(f)) != EOF) putchar(c); putchar('|'); return 0; }")
+        # the probe rules swallow everything: replace the catch-all by nothing so that unmatched text is echoed
+        text = text.replace(".|\\n { }\n", "")
+        rc, err = flex(wd, text, [])
+        if rc:
+            return ["flex fails: " + err[:200]]
+        rc, e = cc(wd, ["p.c"])
+        if rc:
+            return ["the scanner does not compile: " + (e.strip().splitlines() or ["?"])[0][:200]]
+        rc, o, e2 = run([os.path.join(wd, "p.exe")], cwd=wd, timeout=20)
+        want = b"xy\nz|"
+    return [] if o == want else ["unmatched text copied to the output stream (%s): expected %r, got %r" % (backend, want, o[:60])]
+
+
 def p_cli_vs_option(wd, arg):
     """the same scanner, byte for byte, from --name and from %option name"""
     name, need = arg
@@ -558,7 +633,8 @@ PROBES = [("nodefault", p_nodefault, [(b, h) for b in ("nr", "r", "c99", "cxx") 
                                                    ("prefix", "zz", "", ["--prefix=zz"]), ("prefix", "zz", "", ["-Pzz"]),
                                                    ("tables-file", "t.tbl", "", ["--tables-file=t.tbl"]),
                                                    ("header-file", "h.h", "", ["--header-file=h.h"])]),
-          ("define", p_define, [None]),
+          ("define", p_define, [None]), ("macro-splices", p_macro_splices, ["nr", "r"]), ("init-extra", p_init_extra, [None]),
+          ("output-stream", p_output_stream, ["nr", "nr2", "r", "cxx"]),
           ("directives", p_directives, ["array", "pointer", "lex-sizes", "default-name", "default-name-prefix", "default-name-prefix-opt",
                                         "default-name-cxx", "flex++", "outfile-opt"])]
 
